@@ -9,6 +9,9 @@ RET = "src/allmydata/mutable/retrieve.py"
 DECODE_TAIL = ("        return await defer_to_thread(\n            self.decoder.decode,\n            some_shares,\n"
                "            [int(s) for s in their_shareids]\n        )\n")
 
+DEC_CTOR = "        self.decoder = zfec.Decoder(self.required_shares, self.max_shares)"
+ENC_CTOR = "        self.encoder = zfec.Encoder(required_shares, max_shares)"
+
 MUTANTS = [
     # ---- C36.1
     M("encoder-ctor-swapped", CODEC, "        self.encoder = zfec.Encoder(required_shares, max_shares)",
@@ -169,6 +172,68 @@ MUTANTS = [
       "        shares = await defer_to_thread(self.encoder.encode, inshares, desired_share_ids)\n",
       "        job = partial(self.encoder.encode, inshares, desired_share_ids)\n        shares = await defer_to_thread(job)\n", None,
       edits=[(CODEC, "import zfec\n", "import zfec\nfrom functools import partial\n")]),
+    # ---- C36.7  (the zfec object of an instance is built from - and, when memoised, keyed by - that instance's k AND N)
+    M("decoder-module-cache-keyed-by-k", CODEC, DEC_CTOR,
+      "        self.decoder = _get_zfec_decoder(self.required_shares, self.max_shares)", "C36.7",
+      edits=[(CODEC, "@implementer(ICodecDecoder)\n",
+              "_zfec_decoders = {}\n\ndef _get_zfec_decoder(required_shares, max_shares):\n    try:\n"
+              "        return _zfec_decoders[required_shares]\n    except KeyError:\n"
+              "        decoder = zfec.Decoder(required_shares, max_shares)\n        _zfec_decoders[required_shares] = decoder\n"
+              "        return decoder\n\n\n@implementer(ICodecDecoder)\n")]),
+    M("decoder-class-level-singleton", CODEC, DEC_CTOR,
+      "        if CRSDecoder._zfec is None:\n            CRSDecoder._zfec = zfec.Decoder(self.required_shares, self.max_shares)\n"
+      "        self.decoder = CRSDecoder._zfec", "C36.7",
+      edits=[(CODEC, "class CRSDecoder:\n\n    def set_params(", "class CRSDecoder:\n    _zfec = None\n\n    def set_params(")]),
+    M("decoder-module-global-singleton", CODEC, DEC_CTOR,
+      "        global _DECODER\n        if _DECODER is None:\n            _DECODER = zfec.Decoder(self.required_shares, self.max_shares)\n"
+      "        self.decoder = _DECODER", "C36.7", edits=[(CODEC, "import zfec\n", "import zfec\n\n_DECODER = None\n")]),
+    M("encoder-inline-cache-keyed-by-k", CODEC, ENC_CTOR,
+      "        enc = _ENCODERS.get(required_shares)\n        if enc is None:\n"
+      "            enc = _ENCODERS[required_shares] = zfec.Encoder(required_shares, max_shares)\n        self.encoder = enc", "C36.7",
+      edits=[(CODEC, "import zfec\n", "import zfec\n\n_ENCODERS = {}\n")]),
+    M("decoder-cache-keyed-by-size-and-k", CODEC, DEC_CTOR,
+      "        key = (self.data_size, self.required_shares)\n        if key not in _DECODERS:\n"
+      "            _DECODERS[key] = zfec.Decoder(self.required_shares, self.max_shares)\n        self.decoder = _DECODERS[key]", "C36.7",
+      edits=[(CODEC, "import zfec\n", "import zfec\n\n_DECODERS = {}\n")]),
+    M("decoder-setdefault-keyed-by-k", CODEC, DEC_CTOR,
+      "        self.decoder = _DECODERS.setdefault(self.required_shares, zfec.Decoder(self.required_shares, self.max_shares))", "C36.7",
+      edits=[(CODEC, "import zfec\n", "import zfec\n\n_DECODERS = {}\n")]),
+    M("decoder-memoised-factory-keyed-by-k", CODEC, DEC_CTOR,
+      "        self.decoder = _decoder_for(self.required_shares)", ["C36.1", "C36.7"],
+      edits=[(CODEC, "import zfec\n", "import zfec\nfrom functools import lru_cache\n\n@lru_cache(maxsize=None)\n"
+              "def _decoder_for(k):\n    return zfec.Decoder(k, 256)\n")]),
+    M("decoder-memoised-method-ignores-n-argument", CODEC, DEC_CTOR,
+      "        self.decoder = _decoder_for(self.required_shares, max_shares=self.max_shares)", "C36.7",
+      edits=[(CODEC, "import zfec\n", "import zfec\n\n_by_k = {}\n\n"
+              "def _decoder_for(k, max_shares):\n    if k in _by_k:\n        return _by_k[k]\n"
+              "    return _by_k.setdefault(k, zfec.Decoder(k, max_shares))\n")]),
+    M("benign-decoder-factory-function", CODEC, DEC_CTOR,
+      "        self.decoder = _make_decoder(self.required_shares, self.max_shares)", None,
+      edits=[(CODEC, "import zfec\n", "import zfec\n\ndef _make_decoder(k, n):\n    dec = zfec.Decoder(k, n)\n    return dec\n")]),
+    M("benign-decoder-module-cache-keyed-by-k-and-n", CODEC, DEC_CTOR,
+      "        self.decoder = _get_zfec_decoder(self.required_shares, self.max_shares)", None,
+      edits=[(CODEC, "@implementer(ICodecDecoder)\n",
+              "_zfec_decoders = {}\n\ndef _get_zfec_decoder(required_shares, max_shares):\n    key = (required_shares, max_shares)\n    try:\n"
+              "        return _zfec_decoders[key]\n    except KeyError:\n"
+              "        decoder = zfec.Decoder(required_shares, max_shares)\n        _zfec_decoders[key] = decoder\n"
+              "        return decoder\n\n\n@implementer(ICodecDecoder)\n")]),
+    M("benign-decoder-nested-cache-k-then-n", CODEC, DEC_CTOR,
+      "        row = _DECODERS.setdefault(required_shares, {})\n        if max_shares not in row:\n"
+      "            row[max_shares] = zfec.Decoder(required_shares, max_shares)\n        self.decoder = row[max_shares]", None,
+      edits=[(CODEC, "import zfec\n", "import zfec\n\n_DECODERS = {}\n")]),
+    M("benign-encoder-memoised-factory-both-arguments", CODEC, ENC_CTOR,
+      "        self.encoder = _encoder_for(required_shares, max_shares)", None,
+      edits=[(CODEC, "import zfec\n", "import zfec\nimport functools\n\n@functools.lru_cache(maxsize=16)\n"
+              "def _encoder_for(k, n):\n    return zfec.Encoder(k, n)\n")]),
+    M("benign-decoder-imported-class-and-temporary", CODEC, DEC_CTOR,
+      "        dec = Decoder(self.required_shares, self.max_shares)\n        self.decoder = dec", None,
+      edits=[(CODEC, "import zfec\n", "import zfec\nfrom zfec import Decoder\n")]),
+    M("benign-decoder-helper-method-reads-attributes", CODEC, DEC_CTOR,
+      "        self.decoder = self._build()\n\n    def _build(self):\n        return zfec.Decoder(self.required_shares, self.max_shares)", None),
+    M("benign-decoder-placeholder-in-init", CODEC, "class CRSDecoder:\n\n    def set_params(",
+      "class CRSDecoder:\n\n    def __init__(self):\n        self.decoder = None\n\n    def set_params(", None),
+    M("vanish-decoder-built-by-unknown-wrapper", CODEC, DEC_CTOR,
+      "        self.decoder = mathutil.make_decoder(self.required_shares, self.max_shares)", "ANALYSIS-ERROR"),
     # ---- vanished anchor
     M("vanish-decode", CODEC, "    async def decode(self, some_shares, their_shareids):", "    async def decodeX(self, some_shares, their_shareids):",
       "ANALYSIS-ERROR"),
